@@ -1,12 +1,12 @@
 SPECIFICATION Spec
 CONSTANTS
-  Closers = {"k1", "k2"}
+  Closers = {"k1"}
   Requesters = {"r1"}
-  MaxDebounce = 1
+  MaxDebounce = 0
   MaxEvents = 1
-  MaxProbeFail = 1
-  MaxCtlFail = 1
-  MaxAddHost = 1
+  MaxProbeFail = 0
+  MaxCtlFail = 0
+  MaxAddHost = 0
   OnlyDebouncer = FALSE
   WithControl = TRUE
   Defect_StopHandshake = FALSE
@@ -14,9 +14,9 @@ CONSTANTS
   Defect_LatePool = FALSE
   Defect_ReconnectWindow = FALSE
   Defect_EvStopUnderLock = FALSE
-  Defect_EvSyncCallback = FALSE
+  Defect_EvSyncCallback = TRUE
   EvEager = FALSE
   Defect_ReconnectInline = FALSE
   Mut = "none"
-INVARIANTS TypeOK ListenersTracked NoQueueAfterStop NoPanic AllClosedAfterClose QueryAfterClose CancelAfterPools
-
+INVARIANTS TypeOK NoPanic
+PROPERTIES CloseReturns
